@@ -64,11 +64,15 @@ wide:
 	}
 }
 
+// stringAtNone is what stringAt answers for an index outside of the string. It is
+// not a code unit: U+FFFD (utf8.RuneError) is a valid element of a string.
+const stringAtNone rune = -1
+
 func stringAt(str stringObjecter, index int) rune {
 	if 0 <= index && index < str.Length() {
 		return str.At(index)
 	}
-	return utf8.RuneError
+	return stringAtNone
 }
 
 func (rt *runtime) newStringObject(value Value) *object {
@@ -106,7 +110,7 @@ func stringGetOwnProperty(obj *object, name string) *property {
 	}
 	// TODO Test a string of length >= +int32 + 1?
 	if index := stringToArrayIndex(name); index >= 0 {
-		if chr := stringAt(obj.stringValue(), int(index)); chr != utf8.RuneError {
+		if chr := stringAt(obj.stringValue(), int(index)); chr != stringAtNone {
 			return &property{stringValue(string(chr)), 0}
 		}
 	}
